@@ -312,5 +312,6 @@ def gen_scenario(rng, knobs=None):
     return {"evstyle": style, "mixed": mixed, "values": values, "async": acoro, "falsy_machine": rng.random() < K["falsy_machine"], "n": n, "initial": initial, "finals": finals, "ne": ne, "trans": trans, "states": states,
             "provs": provs, "start": start, "rtc": rtc, "allow": rng.random() < K["allow"],
             "field0": field0, "tbl": tbl, "ops": ops,
+            "falsy_model": rng.random() < K.get("falsy_model", 0.0), "inst_listeners": rng.random() < K.get("inst_listeners", 0.0),
             "decoys": ([[0 if rng.random() < 0.7 else rng.randrange(len(ops)), rng.choice([None] + list(range(n)))]
                         for _ in range(rng.randint(1, 2))] if rng.random() < K.get("decoys", 0.0) else [])}
